@@ -3,7 +3,7 @@
 import os
 import sys
 HERE = os.path.dirname(os.path.abspath(__file__))
-LEAN = os.path.join(os.path.dirname(os.path.dirname(HERE)), 'lean')
+LEAN = os.environ.get('C04_LEAN') or os.path.join(os.path.dirname(os.path.dirname(HERE)), 'lean')
 TRY = len(sys.argv) > 1 and sys.argv[1] == "try"
 ONLY = sys.argv[2].split(",") if len(sys.argv) > 2 else None
 
@@ -37,6 +37,13 @@ INV1 = [
  ("gr",  "∀ g p v, s.pc g = .fGotRes p v → s.retval g = some v"),
  ("gv",  "∀ g p, s.pc g = .fGave p → s.retval g = some (s.res p)"),
  ("dj",  "∀ g, (s.pc g = .fWoken ∨ s.pc g = .fMark ∨ s.pc g = .fDone) → (s.claimed g = true ∨ s.detX g = true)"),
+ # the joiner's own hand-over slot (`fiber_t.result` of a fiber that makes calls)
+ ("sc",  "∀ a, slotFree (s.pc a) = true → s.res a = 0"),
+ ("jo1", "∀ p t, s.pc p = .jParked t → (s.res p = 0 ∨ s.retval t = some (s.res p))"),
+ ("jo2", "∀ p t, s.pc p = .jWoken t → (s.res p = 0 ∨ s.retval t = some (s.res p))"),
+ ("jo3", "∀ p t v, s.pc p = .jGotRes t v → (v = 0 ∨ s.retval t = some v)"),
+ ("jo4", "∀ a op t v, s.pc a = .retn op t true v → op ≠ .detach → (v = 0 ∨ s.retval t = some v)"),
+ ("jo5", "∀ t v, v ∈ s.succ t → (v = 0 ∨ s.retval t = some v)"),
 ]
 INV2 = [
  ("k3",  "∀ g a, %s → claimPath (s.pc a) g = true → (s.det g ≠ WFJ ∨ s.finTook g = true)" % UT),
@@ -71,12 +78,14 @@ DEPS = {
  # layer 1
  "mb": ["mb", "hh", "hw", "hf"], "hw": ["hw", "mb", "hf", "hh"], "hf": ["hf", "mb", "hw", "hh"],
  "hh": ["hh", "hw", "hf", "mb"], "st": ["st", "fret", "hf"], "t0": ["t0", "wfj"],
- "tv": ["tv", "st", "t0"], "wv": ["wv", "tv"], "gr": ["gr", "st"], "gv": ["gv", "gr", "hf"],
+ "tv": ["tv", "st", "t0", "wfj"], "wv": ["wv", "tv"], "gr": ["gr", "st"], "gv": ["gv", "gr", "hf"],
  "dj": ["dj", "detx", "wfj", "tcl", "fc", "hw", "dr"],
+ "sc": ["sc", "hf"], "jo1": ["jo1", "sc", "hf", "gr"], "jo2": ["jo2", "jo1", "hf"], "jo3": ["jo3", "jo2"],
+ "jo4": ["jo4", "jo3", "jo2", "wv"], "jo5": ["jo5", "jo4"],
  # layer 2
  "k3": ["k3", "cpn", "dr", "wfj"], "k4": ["k4", "k3", "scn", "dr", "wfj"], "k5": ["k5", "cpn"],
  "uq": ["uq", "cpn", "k3"], "sq": ["sq", "uq", "scn", "k4"], "sl": ["sl", "sq"],
- "cv1": ["cv1", "gv", "hf", "hw", "uq"], "cv2": ["cv2", "cv1"], "cv3": ["cv3", "cv2", "wv"],
+ "cv1": ["cv1", "gv", "hf", "hw", "uq"], "cv2": ["cv2", "cv1"], "cv3": ["cv3", "cv2", "cv1", "wv"],
  "sv": ["sv", "cv3"], "c1": ["c1", "c4", "uq", "hw"], "c4": ["c4", "k3", "hw", "wfj", "dr"],
  "c9": ["c9", "fj", "tl", "wfj", "uq", "hw", "hf", "cpn", "dr"], "ii": ["ii", "c9", "uq", "hw", "hf"],
  "iii": ["iii", "k5", "cpn", "fxn", "wfj", "mb", "uq", "hf"], "iv": ["iv", "hw", "uq", "wfj", "c1"],
